@@ -93,7 +93,9 @@ class Real(object):
         elif name == "copyrows_mask":
             self.cp = cf.copyrows(np.array(op[1], dtype=bool))
         elif name == "copyrows_idx":
-            self.cp = cf.copyrows([i - 1 for i in op[1]])
+            ix = [i - 1 for i in op[1]]
+            # index lists and index arrays (int64 / int32) take different numpy paths
+            self.cp = cf.copyrows(ix if len(ix) % 2 else np.array(ix, dtype=[np.int64, np.int32][sum(ix) % 2]))
         elif name == "copyrows_slice":
             self.cp = cf.copyrows(slice(op[1], op[2]))
         elif name == "getbig":
